@@ -2,6 +2,13 @@
 PENDING_REASON = "static rules designed in DESIGN.md §3 but the check is not registered yet (under construction)"
 
 CLAIMS = {
+    "C09": {
+        "technique": "static analysis: taint of completion-order positions into sort keys / merge order, sort-key shape and stable-sort reasoning, dominance of the error raise over the merge, call-site conformance, sibling cross-check by extracted field->operator maps and per-tier hint tables, effect analysis of submitted thunks",
+        "text": "Decides: run_parallel hands merge_fn a list ordered by (order_key(key), submit index) (pool) or a stable order_key sort of a submit-ordered list (one worker), no enumerate(as_completed) position reaches a key, result or error order, "
+                "`if errors: raise` dominates the pool merge with failures sorted by the same key, zero tasks merge []; every caller passes callables; T1's sequential fold and merge_fn aggregate the same 15 (field, operator, gate) triples position by position with "
+                "task keys carrying the graph position; the shard fan-out passes search_tiered the same per-tier hint keys, from parameters fed by the same config values, and the cross-shard merge sorts by (-qscore, id), de-duplicates and stops at k; thunks write only locals and the lock-wrapped cache.",
+        "note": "Not decided: result equality across real thread schedules and worker counts (schedule exploration); shard-compositionality of the cluster tier - cluster_semantic selects top-m clusters per shard, which is not the global top-m in general (semantic; recorded in DESIGN section 4 as a known limitation, no rule detects it).",
+    },
     "C13": {
         "technique": "static analysis: dominance of the op-cap truncation over the Plan constructor, guard facts of the RequestRetrieve constructor and intent assignments, call-site/loop checks for the single refinement, return provenance through the token truncation, effect analysis of the planner, may-raise (narrowing-guard) analysis of the sanitiser, schema-constant and key-set agreement",
         "text": "Decides: deliberate and rag_once hand Plan() an op list that passed `ops[:min(turn cap, slice cap)]` with nothing appended afterwards and a leading unconditional Speak op; RequestRetrieve is built only under s_max < tau_low and the intent "
